@@ -138,7 +138,7 @@ module.exports = mk({
     } else if (m.propagationDebug) v('debug-unexpected', verb, `verbosity ${verb} but a per-tag breakdown is produced`)
   },
   bound: (tier) => ({ statements_per_program: tier === 'thorough' ? 4 : 3, statement_alphabet: Object.keys(STMTS).length, verbosities: VERBOSITIES.length }),
-  rule: 'leaf = ordered selection of L distinct statements from a 24-statement alphabet mixing instrumented and inspected-but-not-instrumented operations x verbosity x {default, renamed hooks} x file name, plus families A, C, M, S under DEBUG with renamed hooks; non-trivial = at least one hook call site emitted; distinct by (text, config, file)',
+  rule: 'leaf = ordered selection of L distinct statements from a 24-statement alphabet mixing instrumented and inspected-but-not-instrumented operations x verbosity x {default, renamed hooks} x file name, plus families A, C, M, S under DEBUG with renamed hooks, verbosity spellings, 20 file names, counts around 10/256/1000/65536, and the configuration lattice (35 statements x 5 partial configurations x 2 verbosities x {alone, next to a hooked call}); non-trivial = at least one hook call site emitted; distinct by (text, config, file)',
   explanation: 'explicit enumeration of statement orders; oracle = metrics of the result vs hook call sites counted in the annotated erasure of the output, tags derived from the input node under each hook',
   assumptions: ['metrics shaping reached through the cfg hook (same code as lib_wasm::get_metrics)']
 })
